@@ -497,6 +497,9 @@ func c05Tag(kind string, rootScalar bool) string {
 
 func c05Run(c *fw.Ctx) error {
 	n := 3
+	if c.Thorough() {
+		n = 4
+	}
 	shapes := val.Universe(n, []*val.V{val.IntV(1), val.StrV("a"), val.NullV()}, []string{"k", "m"})
 	extra := []string{`{"k": [1, "a"], "m": {"k": 1}}`, `[{"k": 1}, {"k": "a"}]`, `{"k": {"m": [1]}}`, `[[1, "a"], []]`}
 	for _, e := range extra {
@@ -616,7 +619,7 @@ func c05Run(c *fw.Ctx) error {
 			}
 			for j := i + 1; j < len(opts); j++ {
 				d2 := opts[j]
-				if d1.Kind == "text" && d2.Kind == "text" && !c.Thorough() && sh.Size() > 2 {
+				if d1.Kind == "text" && d2.Kind == "text" && (!c.Thorough() && sh.Size() > 2 || sh.Size() > 3) {
 					continue // pairs of two hazard texts only on the smallest shapes (quick)
 				}
 				run(c05Case{Shape: shape, Decos: []c05Deco{d1, d2}}, 3e6+int64(si*1000+i))
